@@ -45,6 +45,18 @@ pub fn c12_case(text: &[u8], out: &mut Vec<Violation>) -> u64 {
 	q!("is_relative", p.is_relative(), !m.abs);
 	q!("is_empty", p.is_empty(), k == 0);
 	q!("segment_count", p.segment_count(), k);
+	{
+		// the owned path: queried with method syntax on the buffer itself
+		let o = pathbuf_of(text).expect("valid path");
+		q!("owned.is_empty", o.is_empty(), k == 0);
+		q!("owned.is_absolute", o.is_absolute(), m.abs);
+		q!("owned.is_relative", o.is_relative(), !m.abs);
+		q!("owned.segment_count", o.segment_count(), k);
+		q!("owned.first", ob(o.first()), m.segs.first().cloned());
+		q!("owned.last", ob(o.last()), m.segs.last().cloned());
+		q!("owned.file_name", ob(o.file_name()), m.segs.last().filter(|s| !s.is_empty()).cloned());
+		q!("owned.segments.collect", o.segments().map(|s| s.as_bytes().to_vec()).collect::<Vec<_>>(), m.segs.clone());
+	}
 	q!("first", ob(p.first()), m.segs.first().cloned());
 	q!("last", ob(p.last()), m.segs.last().cloned());
 	q!("file_name", ob(p.file_name()), m.segs.last().filter(|s| !s.is_empty()).cloned());
